@@ -5,7 +5,11 @@ package main
 // History mode.  Each history is a random program: up to 8 goroutines issue overlapping
 // Open(wait|background) / Close / SendDataMessage / SendDataMessageAsync / UpdateConfigOptions /
 // State / Metrics calls against ONE real hsmsss connection whose every net.Conn / net.Listener is
-// harness-owned, while the scripted peer connects, drops, stalls or refuses per dial attempt.
+// harness-owned, while the scripted peer connects, drops, stalls, refuses or BLACKHOLES (neither accepts
+// nor refuses: the harness dialer blocks until the dial context is done, as net.Dialer does to a filtered
+// address) per dial attempt; blackholed histories run with no connect timeout, one below and one above
+// the (short) close timeout, on HSMS-SS and SECS-I, with Close / Close racing Close / Close racing Open
+// issued while the first dial, a cold background retry or a re-dial after a drop is in flight.
 //
 // Run-time oracles (OBSERVED per history — leak freedom, wall-clock bounds and absence of panics are
 // not theorems): no API call panics; every call returns within its bound (Close: close-timeout + slack
@@ -13,7 +17,9 @@ package main
 // returns the same result again; after the final Close no dial/listen happens, every generation ctx is
 // cancelled, every harness-owned conn/listener is closed, no reconnect loop is pending, no library
 // goroutine is left (global dump after each batch, polled with a deadline); the closed connection can
-// be opened again and carries a round trip.
+// be opened again and carries a round trip; a reconnect dial in flight when a Close is called is aborted by
+// that Close's teardown within the lifeMu queueing budget (never after riding out its connect timeout) and
+// no dial is pending once the final Close has returned.
 // Correspondence: the observed history (API calls/returns by goroutine, dial outcomes, in one total
 // order) must be a trace of the Lean lifecycle model (`life.hist +freefail`).
 //
@@ -40,9 +46,9 @@ import (
 )
 
 func init() {
-	register("C10", "histories: role x per-attempt peer behaviour (connect/drop/stall/refuse) x 2..8 goroutines x random overlapping "+
+	register("C10", "histories: role x per-attempt peer behaviour (connect/drop/stall/refuse/blackhole) x connect timeout (none/below/above the close timeout) x 2..8 goroutines x random overlapping "+
 		"Open(wait|bg)/Close/send/sendAsync/UpdateConfigOptions/State programs, plus directed histories (double open, close never-opened, "+
-		"close during backoff / dial / select, reopen cycles); distinct = distinct (role, behaviours, program) text; non-trivial = the history "+
+		"close during backoff / dial / in-flight blackholed (re)dial / select, reopen cycles); distinct = distinct (role, behaviours, program) text; non-trivial = the history "+
 		"contains at least one Open and one Close issued by different goroutines or a peer fault", runC10)
 }
 
@@ -73,11 +79,30 @@ type c10History struct {
 	// Transport "" = HSMS-SS, "secs1" = SECS-I (raw E4 peer of peer_life_s1.go; S1Equip = library is equipment).
 	Transport string `json:"transport,omitempty"`
 	S1Equip   bool   `json:"s1_equipment,omitempty"`
+	// ConnectTimeoutMs > 0 configures WithConnectTimeout (the per-attempt dial deadline); CloseTimeoutMs > 0
+	// overrides the close timeout (default c10CloseTimeout). Used with the "blackhole" peer behaviour: a dial
+	// that neither connects nor is refused, so the dialer blocks until its ctx is done.
+	ConnectTimeoutMs int `json:"connect_timeout_ms,omitempty"`
+	CloseTimeoutMs   int `json:"close_timeout_ms,omitempty"`
+}
+
+func (h c10History) closeTimeout() time.Duration {
+	if h.CloseTimeoutMs > 0 {
+		return time.Duration(h.CloseTimeoutMs) * time.Millisecond
+	}
+	return c10CloseTimeout
+}
+
+func (h c10History) connectTimeout() time.Duration {
+	return time.Duration(h.ConnectTimeoutMs) * time.Millisecond
 }
 
 func (h c10History) text() string {
 	var sb strings.Builder
 	sb.WriteString(h.Transport + fmt.Sprint(h.S1Equip) + "|" + h.Role + "|" + strings.Join(h.Behs, ",") + "|")
+	if h.ConnectTimeoutMs != 0 || h.CloseTimeoutMs != 0 {
+		fmt.Fprintf(&sb, "ct=%d,cl=%d|", h.ConnectTimeoutMs, h.CloseTimeoutMs)
+	}
 	for _, p := range h.Progs {
 		for _, o := range p {
 			fmt.Fprintf(&sb, "%s:%d ", o.Kind, o.Arg)
@@ -95,8 +120,29 @@ func c10GenHistory(c *Ctx, id int) c10History {
 	} else {
 		h.Role = "passive"
 	}
+	// a third of the active histories meet blackholed dials, with a connect timeout absent / below / above
+	// a short close timeout
+	holey := h.Role == "active" && r.IntN(3) == 0
+	if holey {
+		h.CloseTimeoutMs = 400
+		switch x := r.IntN(10); {
+		case x < 4:
+		case x < 9:
+			h.ConnectTimeoutMs = 60 + r.IntN(200)
+		default:
+			slack := 2 * time.Second
+			if c.Thorough() {
+				slack = 4 * time.Second
+			}
+			h.ConnectTimeoutMs = c10AboveMs(h.CloseTimeoutMs, slack)
+		}
+	}
 	nb := 3 + r.IntN(8)
 	for i := 0; i < nb; i++ {
+		if holey && r.IntN(3) == 0 {
+			h.Behs = append(h.Behs, "blackhole")
+			continue
+		}
 		switch x := r.IntN(10); {
 		case x < 4:
 			h.Behs = append(h.Behs, "connect")
@@ -161,6 +207,53 @@ func c10Directed() []c10History {
 	return out
 }
 
+// c10AboveMs is a connect timeout safely ABOVE the close timeout: if a teardown failed to abort a dial in
+// flight, the call waiting for it would overshoot its bound (close timeout + slack) by about 3 s.
+func c10AboveMs(closeMs int, slack time.Duration) int {
+	return closeMs + int(slack/time.Millisecond) + 3000
+}
+
+// c10BlackholeDirected: Close (alone, racing another Close, racing an Open) issued while a dial is in
+// flight to a peer that neither accepts nor refuses — the first dial of an Open, a cold background
+// retry, a re-dial after a drop before and after Selected — with no connect timeout, one below and one
+// above the close timeout. Active role, every transport.
+func c10BlackholeDirected(slack time.Duration) []c10History {
+	op := func(k string, a int) c10Op { return c10Op{Kind: k, Arg: a} }
+	const closeMs = 400
+	holes := func(pre ...string) []string {
+		out := append([]string(nil), pre...)
+		for i := 0; i < 14; i++ {
+			out = append(out, "blackhole")
+		}
+		return out
+	}
+	var out []c10History
+	type tr struct {
+		name  string
+		equip bool
+	}
+	for _, t := range []tr{{"", false}, {"secs1", false}, {"secs1", true}} {
+		for _, ct := range []int{0, 150, c10AboveMs(closeMs, slack)} {
+			mkh := func(tag string, behs []string, progs [][]c10Op) c10History {
+				return c10History{Role: "active", Transport: t.name, S1Equip: t.equip, Tag: tag, Behs: behs, Progs: progs,
+					ConnectTimeoutMs: ct, CloseTimeoutMs: closeMs}
+			}
+			out = append(out,
+				mkh("blackhole-redial-close", holes("drop"), [][]c10Op{{op("openBg", 0), op("sleep", 80), op("close", 0)}}),
+				mkh("blackhole-cold-bg-close", holes("refuse"), [][]c10Op{{op("openBg", 0), op("sleep", 60), op("close", 0)}}),
+				mkh("blackhole-redial-close-storm", holes("drop"), [][]c10Op{{op("openBg", 0), op("sleep", 70), op("close", 0)},
+					{op("sleep", 72), op("close", 0)}, {op("sleep", 71), op("openBg", 0)}, {op("sleep", 74), op("close", 0), op("openBg", 0), op("sleep", 40), op("close", 0)}}),
+				mkh("blackhole-after-selected-close", holes("dropLate"), [][]c10Op{{op("openWait", 400), op("sleep", 150), op("close", 0)}, {op("sleep", 200), op("state", 0)}}),
+			)
+			if ct != 0 {
+				out = append(out, mkh("blackhole-first-dial", holes(), [][]c10Op{{op("openBg", 0)}, {op("sleep", 20), op("close", 0)},
+					{op("sleep", 25), op("openWait", 50), op("sleep", 30), op("close", 0)}}))
+			}
+		}
+	}
+	return out
+}
+
 type c10Result struct {
 	h          c10History
 	obs        []string
@@ -179,6 +272,8 @@ type c10Result struct {
 	setup      string
 	attempts   int
 	hung       bool
+	dials      []lifeAttempt // every dial / listen attempt (blackholed ones carry how and when they ended)
+	finalRet   time.Time     // when the final Close returned
 }
 
 func c10ClassOpen(err error) string {
@@ -187,6 +282,10 @@ func c10ClassOpen(err error) string {
 		return "ok"
 	case errors.Is(err, hsms.ErrAlreadyOpen):
 		return "already"
+	case strings.Contains(err.Error(), ": dial "):
+		// tr.Start's dial error (Open rolled back). It can WRAP context.DeadlineExceeded — a dial that ran
+		// into WithConnectTimeout — which must not be mistaken for the caller's ctx expiring in waitSelected.
+		return "err"
 	case errors.Is(err, context.DeadlineExceeded), errors.Is(err, context.Canceled), errors.Is(err, hsms.ErrConnClosed):
 		return "waiterr"
 	default:
@@ -297,13 +396,19 @@ func c10RunHistory(h c10History) (res c10Result) {
 	}
 	ln.plan = func(n int) (bool, func(net.Conn)) {
 		b := behOf(n)
-		if b == "refuse" {
+		if b == "refuse" || b == "blackhole" { // (blackhole reaches here only where it cannot apply)
 			return false, nil
 		}
 		return true, func(conn net.Conn) { servePeer(conn, b) }
 	}
+	if libActive {
+		ln.hole = func(n int) bool { return behOf(n) == "blackhole" }
+	}
 	ln.onListen = func(n int, l *lifeListener) {
 		b := behOf(n)
+		if b == "blackhole" { // a listener that nobody ever connects to
+			return
+		}
 		ln.debugf("listen#%d up, behaviour %s", n, b)
 		if conn := l.deliver(); conn != nil {
 			ln.debugf("listen#%d delivered", n)
@@ -314,7 +419,7 @@ func c10RunHistory(h c10History) (res c10Result) {
 	}
 	co := []hsms.ConnOption{
 		hsms.WithT3(300 * time.Millisecond), hsms.WithT5(40 * time.Millisecond), hsms.WithT6(c10T6), hsms.WithT7(c10T7), hsms.WithT8(300 * time.Millisecond),
-		hsms.WithReconnectBackoff(5*time.Millisecond, 2), hsms.WithCloseTimeout(c10CloseTimeout), hsms.WithLogger(lifeNullLogger{}),
+		hsms.WithReconnectBackoff(5*time.Millisecond, 2), hsms.WithCloseTimeout(h.closeTimeout()), hsms.WithLogger(lifeNullLogger{}),
 		hsms.WithWriteTimeout(300 * time.Millisecond),
 	}
 	if h.LongBackoff {
@@ -331,6 +436,9 @@ func c10RunHistory(h c10History) (res c10Result) {
 			so = append(so, secs1.WithEquipment())
 		} else {
 			so = append(so, secs1.WithHost())
+		}
+		if h.ConnectTimeoutMs > 0 {
+			so = append(so, secs1.WithConnectTimeout(h.connectTimeout()))
 		}
 		if libActive {
 			so = append(so, secs1.WithActive(), secs1.WithDialer(ln.dial))
@@ -352,6 +460,9 @@ func c10RunHistory(h c10History) (res c10Result) {
 		var opts []hsmsss.Option
 		for _, o := range co {
 			opts = append(opts, hsmsss.WithConnectionOption(o))
+		}
+		if h.ConnectTimeoutMs > 0 {
+			opts = append(opts, hsmsss.WithConnectTimeout(h.connectTimeout()))
 		}
 		if libActive {
 			opts = append(opts, hsmsss.WithActive(), hsmsss.WithDialer(ln.dial))
@@ -454,7 +565,7 @@ func c10RunHistory(h c10History) (res c10Result) {
 			case 0:
 				opt = hsms.WithT5(25 * time.Millisecond)
 			case 1:
-				opt = hsms.WithCloseTimeout(c10CloseTimeout)
+				opt = hsms.WithCloseTimeout(h.closeTimeout())
 			case 2:
 				opt = hsms.WithReconnectBackoff(3*time.Millisecond, 1.5)
 			case 3:
@@ -503,6 +614,7 @@ func c10RunHistory(h c10History) (res c10Result) {
 		return
 	}
 	res.finalDur = time.Since(t0)
+	res.finalRet = time.Now()
 	if errors.Is(res.finalErr1, hsms.ErrNotOpen) {
 		ln.log("ret.close.notopen:99")
 	} else {
@@ -519,6 +631,7 @@ func c10RunHistory(h c10History) (res c10Result) {
 	res.liveCtx = ln.liveCtxs()
 	res.obs = ln.observations()
 	res.attempts = ln.nAttempts()
+	res.dials = ln.attemptsCopy()
 	// reopen: a closed connection behaves like a fresh one
 	if !errors.Is(res.finalErr1, hsms.ErrNotOpen) || true {
 		phase.Store(1)
@@ -625,11 +738,34 @@ func c10Judge(c *Ctx, pool *lifeLeanPool, r c10Result, slack time.Duration) {
 		return
 	}
 	// ---- run-time oracles ----
+	closeTO := h.closeTimeout()
 	var waitBudget time.Duration
 	for _, o := range r.calls {
 		if o.Kind == "openWait" {
 			waitBudget += time.Duration(o.Arg) * time.Millisecond
 		}
+	}
+	// An Open whose own synchronous dial is blackholed holds lifeMu for the whole connect timeout (its
+	// documented bound); every call queued behind it inherits that budget.
+	var holeBudget time.Duration
+	var holeLog []string
+	for _, a := range r.dials {
+		if !a.Hole {
+			continue
+		}
+		from := "open"
+		if a.FromLoop {
+			from = "loop"
+		} else {
+			holeBudget += h.connectTimeout()
+		}
+		c.Stat("blackhole:" + from + ":" + a.CtxErr)
+		holeLog = append(holeLog, fmt.Sprintf("dial#%d from %s: blocked %v, ended %s", a.N, from, a.Ret.Sub(a.At).Round(time.Millisecond), a.CtxErr))
+	}
+	if len(holeLog) != 0 {
+		rep["blackholed_dials"] = holeLog
+		rep["connect_timeout"] = h.connectTimeout().String()
+		rep["close_timeout"] = closeTO.String()
 	}
 	for _, o := range r.calls {
 		if o.panicV != nil {
@@ -639,7 +775,7 @@ func c10Judge(c *Ctx, pool *lifeLeanPool, r c10Result, slack time.Duration) {
 		switch o.Kind {
 		case "close", "openBg", "openWait":
 			// may queue on lifeMu behind every Open(wait) budget and one bounded Close
-			bound = c10CloseTimeout + waitBudget + slack
+			bound = closeTO + waitBudget + holeBudget + slack
 		case "send", "sendBig":
 			bound = time.Duration(o.Arg)*time.Millisecond + 300*time.Millisecond + slack // ctx budget, else T3
 		case "sendAsync", "config":
@@ -657,8 +793,60 @@ func c10Judge(c *Ctx, pool *lifeLeanPool, r c10Result, slack time.Duration) {
 			c.Violate("property", "invalid-config-accepted", "UpdateConfigOptions(WithT5(-1)) returned nil", rep)
 		}
 	}
-	if r.finalDur > c10CloseTimeout+slack {
-		c.Violate("property", "close-exceeds-bound", fmt.Sprintf("final Close took %v (close-timeout %v)", r.finalDur, c10CloseTimeout), rep)
+	if r.finalDur > closeTO+slack {
+		c.Violate("property", "close-exceeds-bound", fmt.Sprintf("final Close took %v (close-timeout %v)", r.finalDur, closeTO), rep)
+	}
+	// ---- blackholed dials: a teardown must abort a (re)dial in flight; nothing may be pending after Close ----
+	abortSlack := slack / 2
+	type closeCall struct {
+		at  time.Time
+		who string
+	}
+	var closeCalls []closeCall
+	for _, o := range r.calls {
+		if o.Kind == "close" && o.res != "hung" {
+			closeCalls = append(closeCalls, closeCall{o.started, "Close"})
+		}
+	}
+	closeCalls = append(closeCalls, closeCall{r.finalRet.Add(-r.finalDur), "final Close"})
+	for _, a := range r.dials {
+		if !a.Hole {
+			continue
+		}
+		if a.Ret.IsZero() || a.CtxErr == "stuck" {
+			c.Violate("property", "blackholed-dial-never-released", fmt.Sprintf("dial attempt #%d: its context was neither cancelled nor timed out within 45 s", a.N), rep)
+			continue
+		}
+		if a.Ret.After(r.finalRet) {
+			c.Violate("property", "reconnect-dial-pending-after-close",
+				fmt.Sprintf("dial attempt #%d was still in flight %v after the final Close returned", a.N, a.Ret.Sub(r.finalRet).Round(time.Millisecond)), rep)
+		}
+		if a.CtxErr == "deadline" && (!a.HadDeadline || a.Ret.Sub(a.At) < h.connectTimeout()-30*time.Millisecond) {
+			c.Violate("property", "dial-context-deadline-wrong", fmt.Sprintf("dial attempt #%d ended with DeadlineExceeded after %v (connect timeout %v, deadline configured: %v)",
+				a.N, a.Ret.Sub(a.At), h.connectTimeout(), a.HadDeadline), rep)
+		}
+		if !a.FromLoop {
+			continue
+		}
+		// a reconnect attempt in flight when a Close is called must be aborted by that Close's teardown
+		// (its dial context is the generation's): it ends — with context.Canceled, unless its own deadline
+		// happened to fall in the window — within the lifeMu queueing budget, never after riding out the
+		// connect timeout.
+		for _, k := range closeCalls {
+			if !(k.at.After(a.At) && k.at.Before(a.Ret)) {
+				continue
+			}
+			lag := a.Ret.Sub(k.at)
+			if lag > waitBudget+holeBudget+abortSlack {
+				c.Violate("property", "redial-not-aborted-by-close",
+					fmt.Sprintf("%s was called %v after reconnect dial #%d started; the dial was not aborted: it ended %v later with %s (connect timeout %v, close timeout %v)",
+						k.who, k.at.Sub(a.At).Round(time.Millisecond), a.N, lag.Round(time.Millisecond), a.CtxErr, h.connectTimeout(), closeTO), rep)
+				break
+			}
+			if a.CtxErr == "canceled" {
+				c.Stat("blackhole:aborted-by-close")
+			}
+		}
 	}
 	if fmt.Sprint(r.finalErr1) != fmt.Sprint(r.finalErr2) && !(r.finalErr1 == nil && r.finalErr2 == nil) {
 		c.Violate("property", "close-not-idempotent", fmt.Sprintf("Close returned %v then %v", r.finalErr1, r.finalErr2), rep)
@@ -764,6 +952,87 @@ func (p *lifeLeanPool) finish(c *Ctx) {
 	}
 }
 
+// ---- shared by the deterministic race and the stress loop: an ACTIVE connection on either transport ----
+
+type c10Tr struct {
+	name  string // "" = HSMS-SS, "secs1" = SECS-I
+	equip bool   // SECS-I: the library is the equipment
+}
+
+func (t c10Tr) String() string {
+	if t.name == "" {
+		return "hsmsss"
+	}
+	if t.equip {
+		return "secs1-equipment"
+	}
+	return "secs1-host"
+}
+
+var c10ActiveTransports = []c10Tr{{"", false}, {"secs1", false}, {"", false}, {"secs1", true}}
+
+// c10NewActive builds an active connection of transport t whose dialer is ln.dial.
+func c10NewActive(t c10Tr, ln *lifeNet, co []hsms.ConnOption) (hsms.Connection, error) {
+	if t.name == "secs1" {
+		so := []secs1.Option{secs1.WithDeviceID(c10S1Dev), secs1.WithT1(300 * time.Millisecond), secs1.WithT2(400 * time.Millisecond),
+			secs1.WithT4(2 * time.Second), secs1.WithRetryLimit(2), secs1.WithActive(), secs1.WithDialer(ln.dial)}
+		if t.equip {
+			so = append(so, secs1.WithEquipment())
+		} else {
+			so = append(so, secs1.WithHost())
+		}
+		for _, o := range co {
+			so = append(so, secs1.WithConnectionOption(o))
+		}
+		cfg, err := secs1.NewConfig("lifepipe", 1, so...)
+		if err != nil {
+			return nil, err
+		}
+		return secs1.New(cfg)
+	}
+	opts := []hsmsss.Option{hsmsss.WithActive(), hsmsss.WithDialer(ln.dial)}
+	for _, o := range co {
+		opts = append(opts, hsmsss.WithConnectionOption(o))
+	}
+	cfg, err := hsmsss.NewConfig("lifepipe", 1, opts...)
+	if err != nil {
+		return nil, err
+	}
+	return hsmsss.New(cfg)
+}
+
+// c10PeerSet runs cooperative peers of transport t and stops them all.
+type c10PeerSet struct {
+	t     c10Tr
+	mu    sync.Mutex
+	stops []func()
+}
+
+// serve runs a cooperative peer on the harness end of a pipe (blocks until the line ends).
+func (ps *c10PeerSet) serve(conn net.Conn) {
+	if ps.t.name == "secs1" {
+		p := newLifeS1Peer(conn, ps.t.equip, lifeS1Beh{Kind: "serve"})
+		ps.mu.Lock()
+		ps.stops = append(ps.stops, func() { p.stop(); _ = conn.Close() })
+		ps.mu.Unlock()
+		p.run(c10S1Dev)
+		return
+	}
+	p := newLifePeer(conn, true, lifeBehaviour{Kind: "serve"})
+	ps.mu.Lock()
+	ps.stops = append(ps.stops, func() { p.stop(); _ = conn.Close() })
+	ps.mu.Unlock()
+	p.run()
+}
+
+func (ps *c10PeerSet) stopAll() {
+	ps.mu.Lock()
+	for _, f := range ps.stops {
+		f()
+	}
+	ps.mu.Unlock()
+}
+
 // ---- stress: Close racing a reconnect's Start (DESIGN §7 F4: State() after Close) ----
 
 func c10StressF4(c *Ctx, iters int) {
@@ -777,12 +1046,12 @@ func c10StressF4(c *Ctx, iters int) {
 			break
 		}
 		ln := &lifeNet{}
+		tr := c10ActiveTransports[it%len(c10ActiveTransports)]
 		opened := make(chan struct{})
 		closeNow := make(chan struct{})
 		var once sync.Once
 		delay := time.Duration(c.Rng.IntN(400)) * time.Microsecond
-		var pmu sync.Mutex
-		var peers []*lifePeer
+		peers := &c10PeerSet{t: tr}
 		ln.plan = func(n int) (bool, func(net.Conn)) {
 			if n >= 1 {
 				once.Do(func() { close(closeNow) })
@@ -790,27 +1059,17 @@ func c10StressF4(c *Ctx, iters int) {
 				for time.Since(spin) < delay {
 				}
 			}
-			beh := lifeBehaviour{Kind: "serve"}
 			return true, func(conn net.Conn) {
-				p := newLifePeer(conn, true, beh)
-				pmu.Lock()
-				peers = append(peers, p)
-				pmu.Unlock()
 				if n == 0 {
 					go func() { <-opened; _ = conn.Close() }()
 				}
-				p.run()
+				peers.serve(conn)
 			}
 		}
-		var opts []hsmsss.Option
-		for _, o := range []hsms.ConnOption{hsms.WithT5(5 * time.Millisecond), hsms.WithT6(c10T6), hsms.WithReconnectBackoff(time.Millisecond, 1),
-			hsms.WithCloseTimeout(c10CloseTimeout), hsms.WithLogger(lifeNullLogger{})} {
-			opts = append(opts, hsmsss.WithConnectionOption(o))
-		}
-		opts = append(opts, hsmsss.WithActive(), hsmsss.WithDialer(ln.dial))
-		cfg, _ := hsmsss.NewConfig("lifepipe", 1, opts...)
-		conn, err := hsmsss.New(cfg)
+		conn, err := c10NewActive(tr, ln, []hsms.ConnOption{hsms.WithT5(5 * time.Millisecond), hsms.WithT6(c10T6), hsms.WithReconnectBackoff(time.Millisecond, 1),
+			hsms.WithCloseTimeout(c10CloseTimeout), hsms.WithLogger(lifeNullLogger{})})
 		if err != nil {
+			c.Note("F4 stress: cannot build a %v connection: %v", tr, err)
 			return
 		}
 		ctx, cancel := context.WithTimeout(context.Background(), 2*time.Second)
@@ -822,12 +1081,16 @@ func c10StressF4(c *Ctx, iters int) {
 		close(opened)
 		if err != nil {
 			_ = conn.Close()
+			peers.stopAll()
+			ln.wg.Wait()
 			continue
 		}
 		select {
 		case <-closeNow:
 		case <-time.After(2 * time.Second):
 			_ = conn.Close()
+			peers.stopAll()
+			ln.wg.Wait()
 			continue
 		}
 		ln.log("call.close:1")
@@ -836,10 +1099,11 @@ func c10StressF4(c *Ctx, iters int) {
 		ln.log("ret.close.ok:1")
 		if d := time.Since(t0); cerr != nil || d > c10CloseTimeout {
 			c.Violate("property", "stress-close-slow-or-failed", fmt.Sprintf("Close racing a reconnect took %v and returned %v", d, cerr),
-				map[string]any{"observations": ln.observations(), "stress_iteration": it})
+				map[string]any{"observations": ln.observations(), "stress_iteration": it, "transport": tr.String()})
 			return
 		}
 		ran++
+		c.Stat("f4:stress:" + tr.String())
 		st := conn.State()
 		if st != hsms.NotConnectedState {
 			notNC++
@@ -848,20 +1112,15 @@ func c10StressF4(c *Ctx, iters int) {
 			}
 			c.Violate("property", "state-after-close-not-notconnected",
 				fmt.Sprintf("stress (Close racing a reconnect's Start): State() == %s after Close returned", st),
-				map[string]any{"observations": ln.observations(), "stress_iteration": it, "dial_spin": delay.String()})
+				map[string]any{"observations": ln.observations(), "stress_iteration": it, "dial_spin": delay.String(), "transport": tr.String()})
 		}
 		if n := ln.nAttempts(); n >= 2 {
 			sealed++
 		}
-		pmu.Lock()
-		for _, p := range peers {
-			p.stop()
-			_ = p.conn.Close()
-		}
-		pmu.Unlock()
+		peers.stopAll()
 		ln.wg.Wait()
 		if r := ln.openResources(); len(r) != 0 {
-			c.Violate("property", "resource-left-open", fmt.Sprintf("stress: harness-owned %v not closed after Close", r), map[string]any{"stress_iteration": it})
+			c.Violate("property", "resource-left-open", fmt.Sprintf("stress: harness-owned %v not closed after Close", r), map[string]any{"stress_iteration": it, "transport": tr.String()})
 		}
 	}
 	c.StatN("f4:stress-iterations", ran)
@@ -879,31 +1138,22 @@ func c10StressF4(c *Ctx, iters int) {
 func c10RacePublish(c *Ctx, iters int) {
 	for it := 0; it < iters; it++ {
 		loopFirst := it%2 == 0
+		tr := c10ActiveTransports[(it/2)%len(c10ActiveTransports)] // both arrival orders on every transport
 		ln := &lifeNet{}
 		opened := make(chan struct{})
-		var pmu sync.Mutex
-		var peers []*lifePeer
+		peers := &c10PeerSet{t: tr}
 		ln.plan = func(n int) (bool, func(net.Conn)) {
 			return true, func(conn net.Conn) {
-				p := newLifePeer(conn, true, lifeBehaviour{Kind: "serve"})
-				pmu.Lock()
-				peers = append(peers, p)
-				pmu.Unlock()
 				if n == 0 {
 					go func() { <-opened; _ = conn.Close() }()
 				}
-				p.run()
+				peers.serve(conn)
 			}
 		}
-		var opts []hsmsss.Option
-		for _, o := range []hsms.ConnOption{hsms.WithT5(5 * time.Millisecond), hsms.WithT6(c10T6), hsms.WithReconnectBackoff(time.Millisecond, 1),
-			hsms.WithCloseTimeout(c10CloseTimeout), hsms.WithLogger(lifeNullLogger{})} {
-			opts = append(opts, hsmsss.WithConnectionOption(o))
-		}
-		opts = append(opts, hsmsss.WithActive(), hsmsss.WithDialer(ln.dial))
-		cfg, _ := hsmsss.NewConfig("lifepipe", 1, opts...)
-		conn, err := hsmsss.New(cfg)
+		conn, err := c10NewActive(tr, ln, []hsms.ConnOption{hsms.WithT5(5 * time.Millisecond), hsms.WithT6(c10T6), hsms.WithReconnectBackoff(time.Millisecond, 1),
+			hsms.WithCloseTimeout(c10CloseTimeout), hsms.WithLogger(lifeNullLogger{})})
 		if err != nil {
+			c.Note("race-publish: cannot build a %v connection: %v", tr, err)
 			return
 		}
 		atHook := make(chan struct{}, 64)
@@ -919,12 +1169,7 @@ func c10RacePublish(c *Ctx, iters int) {
 			return
 		}
 		cleanup := func() {
-			pmu.Lock()
-			for _, p := range peers {
-				p.stop()
-				_ = p.conn.Close()
-			}
-			pmu.Unlock()
+			peers.stopAll()
 			ln.wg.Wait()
 		}
 		ctx, cancel := context.WithTimeout(context.Background(), 2*time.Second)
@@ -988,9 +1233,9 @@ func c10RacePublish(c *Ctx, iters int) {
 		after := ln.nAttempts() - before
 		lifeWait(time.Second, func() bool { return len(ln.openResources()) == 0 })
 		obs := ln.observations()
-		rep := map[string]any{"observations": obs, "loop_first": loopFirst, "iteration": it, "state_after_close": st.String(), "dial_attempts": ln.nAttempts()}
-		c.Count(fmt.Sprintf("race-publish|%v|%d", loopFirst, before), true)
-		c.Stat(fmt.Sprintf("race:loopFirst=%v:dials=%d", loopFirst, before))
+		rep := map[string]any{"observations": obs, "loop_first": loopFirst, "iteration": it, "state_after_close": st.String(), "dial_attempts": ln.nAttempts(), "transport": tr.String()}
+		c.Count(fmt.Sprintf("race-publish|%v|%v|%d", tr, loopFirst, before), true)
+		c.Stat(fmt.Sprintf("race:%v:loopFirst=%v:dials=%d", tr, loopFirst, before))
 		if cerr != nil || closeDur > c10CloseTimeout {
 			c.Violate("property", "close-exceeds-bound", fmt.Sprintf("race-publish: Close took %v and returned %v", closeDur, cerr), rep)
 		}
@@ -1081,6 +1326,7 @@ func runC10(c *Ctx) {
 		hs = append(hs, c10History{Role: role, Transport: "secs1", S1Equip: i >= 2, Tag: "close-mid-block", Behs: []string{"connect", "connect"},
 			Progs: [][]c10Op{{{Kind: "openBg"}, {Kind: "sleep", Arg: 20}, {Kind: "sendBig", Arg: 800}}, {{Kind: "sleep", Arg: 28 + 3*i}, {Kind: "close"}}}})
 	}
+	hs = append(hs, c10BlackholeDirected(slack)...)
 	for i := 0; i < c.Pick(150, 2400); i++ {
 		hs = append(hs, c10GenHistory(c, 0))
 	}
